@@ -1,12 +1,179 @@
 /-
-  C12 — property theorems only; helper lemmas live in Nutree/Lemmas.
+  C12 — layout of the native file format: the written node list (`enumerate`, `toList`), the
+  key/value maps (`compress`/`uncompress`), the header, and the refusals of `load`.
+  Property theorems only; helper lemmas live in Nutree/Lemmas (SerialList, SerialMaps).
 -/
 import Nutree.Model.Serial
+import Nutree.Lemmas.SerialList
+import Nutree.Lemmas.SerialClone
+import Nutree.Lemmas.SerialMaps
 namespace Nutree.C12
 open Nutree T Nutree.Ser
 
-/-- the header written by save names generator and format version (constants regenerated from the source). -/
-theorem header_generator (o : Opts) (h : ∀ k, (k, v) ∈ o.fileMeta → k ≠ "$generator" ∧ k ≠ "$format_version") :
-    True := trivial
+/-- L1. The rows of the written list are the nodes in pre-order, numbered 1, 2, …. -/
+theorem enumerate_preorder (tops : List T) :
+    (enumerate tops 0 1).1.map (·.2.2) = flatL tops ∧
+    (enumerate tops 0 1).1.map (·.1) = List.range' 1 (flatL tops).length :=
+  ⟨enumerate_nodes tops 0 1, enumerate_indices tops 0 1⟩
+
+/-- L2 (structural form, no assumption on node ids). For every row `(i, p, n)`: the parent index is
+smaller than the own index; it is 0 for a top-level node, and otherwise it is the index of the row
+that holds a node having `n` among its children. -/
+theorem enumerate_parent (tops : List T) (i p : Nat) (n : T) (hr : (i, p, n) ∈ (enumerate tops 0 1).1) :
+    p < i ∧
+    ((p = 0 ∧ n ∈ tops) ∨
+     (0 < p ∧ ∃ q par, (p, q, par) ∈ (enumerate tops 0 1).1 ∧ n ∈ par.kids)) := by
+  obtain ⟨h1, h2⟩ := enumerate_parent_struct tops 0 1 Nat.one_pos _ hr
+  rcases h2 with ⟨h3, h4⟩ | ⟨h3, h4, h5⟩
+  · exact ⟨by simp only at h1 h3; omega, Or.inl ⟨h3, h4⟩⟩
+  · exact ⟨h4, Or.inr ⟨h3, h5⟩⟩
+
+/-- L2 (with pairwise distinct, non-zero node ids — 0 is the system root). For every row
+`(i, p, n)`: `p < i`; `p = 0` iff `n` is a top-level node; and the row with index `p` holds the
+parent of `n` (`findParent`, i.e. `n._parent`; the system root for `p = 0`). -/
+theorem enumerate_parent_ids (tops : List T) (hN : C10.IdsNodup (mkRoot tops)) (i p : Nat) (n : T)
+    (hr : (i, p, n) ∈ (enumerate tops 0 1).1) :
+    p < i ∧ (p = 0 ↔ n ∈ tops) ∧
+    (p = 0 → findParent n.id (mkRoot tops) = some (mkRoot tops)) ∧
+    (p ≠ 0 → ∃ q par, (p, q, par) ∈ (enumerate tops 0 1).1 ∧ findParent n.id (mkRoot tops) = some par) := by
+  obtain ⟨h1, h2⟩ := enumerate_parent tops i p n hr
+  have hpar : ∀ q par, (p, q, par) ∈ (enumerate tops 0 1).1 → n ∈ par.kids →
+      findParent n.id (mkRoot tops) = some par := by
+    intro q par hm hk
+    have : par ∈ flatL tops := by
+      rw [← enumerate_nodes tops 0 1]
+      exact List.mem_map.2 ⟨_, hm, rfl⟩
+    exact findParent_of_mem_kids hN (by rw [mkRoot, flat_node]; exact List.mem_cons_of_mem _ this) hk
+  have htop : n ∈ tops → findParent n.id (mkRoot tops) = some (mkRoot tops) := fun hn =>
+    findParent_of_mem_kids hN (self_mem_flat _) hn
+  refine ⟨h1, ⟨?_, ?_⟩, ?_, ?_⟩
+  · intro hp
+    rcases h2 with ⟨_, h⟩ | ⟨h, _⟩
+    · exact h
+    · omega
+  · intro hn
+    rcases h2 with ⟨h, _⟩ | ⟨_, q, par, hm, hk⟩
+    · exact h
+    · exfalso
+      have e := (hpar q par hm hk).symm.trans (htop hn)
+      have hpm : par ∈ flatL tops := by
+        rw [← enumerate_nodes tops 0 1]
+        exact List.mem_map.2 ⟨_, hm, rfl⟩
+      rw [Option.some.injEq] at e
+      rw [e] at hpm
+      exact id_ne_of_mem_flatL_kids hN hpm rfl
+  · intro hp
+    rcases h2 with ⟨_, h⟩ | ⟨h, _⟩
+    · exact htop h
+    · omega
+  · intro hp
+    rcases h2 with ⟨h, _⟩ | ⟨_, q, par, hm, hk⟩
+    · exact absurd h hp
+    · exact ⟨q, par, hm, hpar q par hm hk⟩
+
+/-- L3. The written list has one element per row, carrying the row's parent index, in order. -/
+theorem toList_shape (typed : Bool) (o : Opts) (ser : T → Fields → Option Fields) (isClone : T → Bool)
+    (tops : List T) (out : List (Nat × Payload)) (h : toList typed o ser isClone tops = some out) :
+    out.length = (enumerate tops 0 1).1.length ∧
+    out.map (·.1) = (enumerate tops 0 1).1.map (·.2.1) := by
+  rw [toList_eq] at h
+  cases hp : payloads typed o ser isClone (enumerate tops 0 1).1 [] with
+  | none => rw [hp] at h; cases h
+  | some x =>
+    obtain ⟨es, c⟩ := x
+    rw [hp] at h
+    simp only [Option.map_some, Option.some.injEq] at h
+    subst h
+    have := payloads_shape typed o ser isClone _ _ _ _ hp
+    exact ⟨by simpa using congrArg List.length this, this⟩
+
+/-- L4. **Which elements are references.**  `isClone` is `node.is_clone()` as `save` evaluates it
+(`Ser.saveIsClone tops n` = the data id of `n` occurs at least twice in the forest).  Split the rows
+at any row `(i, p, n)`: `rows = pre ++ (i, p, n) :: post`.  The element written at that position is
+`(p, pl)`, and `pl` is the bare reference `.ref k` (nothing else of the node is stored) iff `k` is
+the index of the FIRST earlier row whose node has the data id of `n`, and that node has the kind of
+`n`.  In every other case — no earlier occurrence, or the first occurrence has another kind (the
+map keeps only the first occurrence) — the full entry of `n` is written. -/
+theorem toList_ref_iff (typed : Bool) (o : Opts) (ser : T → Fields → Option Fields) (tops : List T)
+    (out : List (Nat × Payload)) (h : toList typed o ser (saveIsClone tops) tops = some out)
+    (pre post : List Row) (i p : Nat) (n : T)
+    (hrows : (enumerate tops 0 1).1 = pre ++ (i, p, n) :: post) :
+    ∃ pl, out[pre.length]? = some (p, pl) ∧
+      (∀ k, pl = .ref k ↔ ∃ a q m b, pre = a ++ (k, q, m) :: b ∧ (∀ r ∈ a, r.2.2.did ≠ n.did) ∧
+        m.did = n.did ∧ m.kind = n.kind) ∧
+      ((∀ k, pl ≠ .ref k) → fullEntry typed o ser n = some pl) :=
+  toList_ref_iff_core h hrows
+
+/-- `saveJ` uses exactly this `isClone`. -/
+theorem saveJ_eq (typed : Bool) (o : Opts) (ser : T → Fields → Option Fields) (tops : List T) :
+    saveJ typed o ser tops = (toList typed o ser (saveIsClone tops) tops).map fun rows =>
+      .obj [("meta", .obj (header o)), ("nodes", .arr (rows.map fun (p, e) => JVal.arr [.num p, payloadJ e]))] :=
+  rfl
+
+/-- L5. **What `save` compressed, `load` un-compresses to the original entry**, provided the maps
+are valid for the entry (`Ser.ValidMaps`: renaming by `key_map` and back by its inverse is the
+identity on the keys of the entry — e.g. the short names are pairwise distinct and none of them is
+an un-renamed key of the entry, `ValidMaps.of_nodup`).  Nothing is required of `value_map`.
+`Ser.validMaps_of_roundtrip` shows that `ValidMaps` is also necessary. -/
+theorem uncompress_compress (o : Opts) (d d' : Fields) (hv : ValidMaps o d) (h : compress o d = some d') :
+    uncompress (o.keyMap.map fun (k, s) => (s, k)) o.valueMap d' = some d :=
+  Ser.uncompress_compress hv h
+
+/-- L6. `load` refuses (RuntimeError) a document that is not an object, … -/
+theorem load_rejects_not_obj (typed : Bool) (sa : String → Atom) (ds : Fields → DRes) (doc : JVal)
+    (h : ∀ top, doc ≠ .obj top) : loadJ typed sa ds doc = .error .runtime :=
+  Ser.load_rejects_not_obj h
+
+/-- … that has no `"meta"` object, … -/
+theorem load_rejects_no_meta (typed : Bool) (sa : String → Atom) (ds : Fields → DRes) (top : Fields)
+    (h : ∀ hdr, lookupF top "meta" ≠ some (.obj hdr)) : loadJ typed sa ds (.obj top) = .error .runtime :=
+  Ser.load_rejects_no_meta h
+
+/-- … that has no `"nodes"` array, … -/
+theorem load_rejects_no_nodes (typed : Bool) (sa : String → Atom) (ds : Fields → DRes) (top : Fields)
+    (h : ∀ nodes, lookupF top "nodes" ≠ some (.arr nodes)) : loadJ typed sa ds (.obj top) = .error .runtime :=
+  Ser.load_rejects_no_nodes h
+
+/-- … whose meta has no `"$generator"`, … -/
+theorem load_rejects_no_generator (typed : Bool) (sa : String → Atom) (ds : Fields → DRes) (top hdr : Fields)
+    (hm : lookupF top "meta" = some (.obj hdr)) (hg : lookupF hdr "$generator" = none) :
+    loadJ typed sa ds (.obj top) = .error .runtime :=
+  Ser.load_rejects_no_generator hm hg
+
+/-- … or whose generator does not contain `"nutree/"`. -/
+theorem load_rejects_bad_generator (typed : Bool) (sa : String → Atom) (ds : Fields → DRes) (top hdr : Fields)
+    (g : JVal) (hm : lookupF top "meta" = some (.obj hdr)) (hg : lookupF hdr "$generator" = some g)
+    (hn : hasNutree (match (generalizing := false) g with | .str s => s | _ => "") = false) :
+    loadJ typed sa ds (.obj top) = .error .runtime :=
+  Ser.load_rejects_bad_generator hm hg hn
+
+/-- L7. The header names the generator (constant regenerated from the source), unless `file_meta`
+overwrites it … -/
+theorem header_generator (o : Opts) (h : ∀ e ∈ o.fileMeta, e.1 ≠ "$generator") :
+    lookupF (header o) "$generator" = some (.str ("nutree/" ++ Nutree.Generated.version)) :=
+  Ser.header_generator h
+
+/-- … and the format version; -/
+theorem header_format_version (o : Opts) (h : ∀ e ∈ o.fileMeta, e.1 ≠ "$format_version") :
+    lookupF (header o) "$format_version" = some (.str Nutree.Generated.fileFormatVersion) :=
+  Ser.header_format_version h
+
+/-- `"$key_map"` is present iff a key map is given (and then it is that map), … -/
+theorem header_key_map (o : Opts) (h : ∀ e ∈ o.fileMeta, e.1 ≠ "$key_map") :
+    ((lookupF (header o) "$key_map").isSome ↔ o.keyMap ≠ []) ∧
+    lookupF (header o) "$key_map" =
+      if o.keyMap = [] then none else some (.obj (o.keyMap.map fun (k, v) => (k, JVal.str v))) :=
+  ⟨Ser.header_key_map_isSome h, Ser.header_key_map h⟩
+
+/-- … the same for `"$value_map"`. -/
+theorem header_value_map (o : Opts) (h : ∀ e ∈ o.fileMeta, e.1 ≠ "$value_map") :
+    ((lookupF (header o) "$value_map").isSome ↔ o.valueMap ≠ []) ∧
+    lookupF (header o) "$value_map" =
+      if o.valueMap = [] then none else some (.obj (o.valueMap.map fun (k, v) => (k, JVal.arr v))) :=
+  ⟨Ser.header_value_map_isSome h, Ser.header_value_map h⟩
+
+/-- the written generator passes `load`'s check. -/
+theorem header_generator_accepted : hasNutree ("nutree/" ++ Nutree.Generated.version) = true :=
+  Ser.hasNutree_generator
 
 end Nutree.C12
